@@ -269,7 +269,7 @@ def generate(unit_path):
                 raise LostAnchor(str(ex))
             b = rsscan.find_body_open(src.masked, s)
             header = rsscan.strip_comments(src.text[s:b]).strip()
-            header, counts = rewrites.apply_all(header, header_only=True)
+            header, counts = rewrites.apply_all(header, item_kind=('trait' if d.name == 'trait' else None), header_only=True)
             block = (d.name, (b + 1, e - 1), d.arg)
             em.emit(header + ' {', kind='block')
             if d.payload and any(x.strip() for x in d.payload):
